@@ -5,6 +5,7 @@
    the real _PyCode_ConstantKey (ctypes) by the oracle.  Frozen-ness of the dataclasses is a property
    of the dataclasses runtime and is decided by complete enumeration of (class, field) pairs. *)
 From PCD Require Import Base.PyBase Model.Args Model.Data Model.Consts Spec.ConstKey Proofs.ConstsProofs.
+From PCD Require Gen.SrcFields.
 
 (* equality of constants is an equivalence relation *)
 Theorem C08_key_eq_equivalence :
@@ -59,3 +60,16 @@ Theorem C08_equal_implies_equal_hash :
   (forall a b, cd_eqb a b = true -> cd_hash a = cd_hash b).
 Proof. split; [exact chash_respects | exact cd_hash_respects]. Qed.
 Print Assumptions C08_equal_implies_equal_hash.
+
+(* Immutability, as far as the source text decides it: every dataclass of code_data/__init__.py is declared
+   @dataclass(frozen=True), and no field is annotated with a mutable container type (list, dict, set, ...).
+   Gen/SrcFields.v is re-translated from the source on every run; dropping frozen=True from one class, or
+   typing a field as a list, breaks these obligations.  (That instances really reject assignment and that
+   the values stored are tuples is the oracle's complete (class, field) enumeration at run time.) *)
+Example C08_every_dataclass_is_declared_frozen :
+  forallb (fun cf : PCD.Base.PyBase.str * bool => snd cf) PCD.Gen.SrcFields.source_frozen = true
+  /\ length PCD.Gen.SrcFields.source_frozen = length PCD.Gen.SrcFields.source_fields.
+Proof. split; vm_compute; reflexivity. Qed.
+Example C08_no_field_has_a_mutable_container_type :
+  PCD.Gen.SrcFields.source_mutable_fields = nil.
+Proof. vm_compute. reflexivity. Qed.
